@@ -15,6 +15,10 @@
                 (Key mod NParts = Part) so that several TLC processes share the work;
      "sim"   -- a state machine that GROWS a signature and a call one element per step
                 (for `-simulate`: every behaviour is one random, larger case; Finish prints it);
+     "hostdup" -- calls that only a host can issue (Evaluator::eval_function takes the named
+                arguments as a slice): the same name given twice by name=value.  Source code
+                cannot say that (CallTokensOK), the binding rules reject it ("repeated", rule 4),
+                whatever the callee is;
      "sigtok"/"calltok" -- token sequences of parameter lists / argument lists with the static
                 verdict of SigTokensOK / CallTokensOK.                                       *)
 EXTENDS ArgBind, TLC, Json
@@ -101,6 +105,15 @@ BindInit ==
           \E ss \in {<<0, <<>> >>} \cup {<<1, m>> : m \in seqs[Min(MaxStarStar, MaxTotal - np - StarLen(st) - Len(nm))]} :
              call = MkCall(np, nm, st, ss)
 
+(* ---- mode "hostdup": named arguments with a repeated name, no *seq / **map ---- *)
+DupSeqs(S, m) == UNION {{s \in [1..k -> S] : \E i, j \in 1..k : i # j /\ s[i] = s[j]} : k \in 2..m}
+DupInit ==
+    /\ phase = "done"
+    /\ sig \in SigSet
+    /\ \E np \in 0..MaxPos : \E nm \in DupSeqs(Pool(sig), MaxNamed) :
+          /\ (SigHash(sig) + 3 * np) % NParts = Part
+          /\ call = MkCall(np, nm, 0, <<0, <<>> >>)
+
 (* ---- mode "sim": grow one case per behaviour ---- *)
 SimInit == /\ phase = "sig" /\ sig = <<>> /\ call = EmptyCall
 
@@ -155,6 +168,7 @@ TokInit == /\ phase = "done" /\ call = EmptyCall
 
 (* ---- assembly ---- *)
 Init == CASE Mode = "bind" -> BindInit
+          [] Mode = "hostdup" -> DupInit
           [] Mode = "sim" -> SimInit
           [] OTHER -> TokInit
 Next == Mode = "sim" /\ SimNext
@@ -162,7 +176,8 @@ Spec == Init /\ [][Next]_vars
 
 (* One invariant does everything for a finished case, so that Bind is evaluated once:
    print the case with its expected outcome (G) and check the properties of Bind itself (M). *)
-Emit == CASE Mode = "bind" -> (LET r == Bind(sig, call) IN
+Emit == CASE Mode \in {"bind", "hostdup"} -> (LET r == Bind(sig, call) IN
+                                 /\ (Mode = "hostdup" => ~r.ok)
                                  /\ PrintT(<<"CASE", ToJson(OutCaseR(sig, call, r))>>)
                                  /\ ConservationOf(sig, call, r)
                                  /\ ShapeOf(sig, call, r))
@@ -181,5 +196,5 @@ Render(s, i) ==
              slash == IF s[i].kind = "posonly" /\ (i = Len(s) \/ s[i+1].kind # "posonly") THEN <<"/">> ELSE <<>>
              star == IF s[i].kind = "kwonly" /\ (i = 1 \/ s[i-1].kind \notin {"kwonly", "args"}) THEN <<"*">> ELSE <<>>
          IN star \o tok \o slash \o Render(s, i + 1)
-RenderOK == (Mode \in {"bind", "sim"} /\ phase \in {"finish", "done"}) => SigTokensOK(Render(sig, 1))
+RenderOK == (Mode \in {"bind", "sim", "hostdup"} /\ phase \in {"finish", "done"}) => SigTokensOK(Render(sig, 1))
 =============================================================================
